@@ -31,6 +31,10 @@ def whitening(ctx):
                                   L.spec_whitening_fit, L.facts(), "C14.white.%s%s" % (kind, ".pinv" if pinv else ""), state_names={0: "self"},
                                   structural=False)
             out += cl
+    # integer-typed samples
+    I = new_interp()
+    out += K.check_function(I, "whitening.Whitening.fit", lambda: ([mk_obj(I, "Whitening"), input_arr("X", (L.Nn, L.Dd), dtype="int", narrow=True)], {}),
+                            L.spec_whitening_fit, L.facts(), "C14.white.numpy.intdata", state_names={0: "self"}, structural=False)
     # a single feature (np.cov returns a 0-d array there)
     I = new_interp()
     cl = K.check_function(I, "whitening.Whitening.fit", lambda: ([mk_obj(I, "Whitening"), input_arr("X", (L.Nn, ONE))], {}),
@@ -55,14 +59,15 @@ def whitening(ctx):
 
 def wccn(ctx):
     out = []
-    for kind, pinv in (("numpy", False), ("numpy", True), ("dask", False)):
+    for kind, pinv, intdata in (("numpy", False, False), ("numpy", True, False), ("dask", False, False), ("numpy", False, True)):
         I = new_interp()
         IN.LabelSet.count = 0
         holder = {}
 
-        def build(kind=kind, pinv=pinv):
+        def build(kind=kind, pinv=pinv, intdata=intdata):
             IN.LabelSet.count = 0
-            return [mk_obj(I, "WCCN", pinv=pinv), input_arr("X", (L.Nn, L.Dd), kind), input_arr("y", (L.Nn,), dtype="int")], {}
+            X = input_arr("X", (L.Nn, L.Dd), kind, dtype="int", narrow=True) if intdata else input_arr("X", (L.Nn, L.Dd), kind)
+            return [mk_obj(I, "WCCN", pinv=pinv), X, input_arr("y", (L.Nn,), dtype="int")], {}
 
         enum_name = ["pi1"]
 
@@ -92,7 +97,7 @@ def wccn(ctx):
         F = L.facts()
         F.dims.add("K_pi1")
         F.pos_syms.add("K_pi1")
-        cl = K.check_function(I, "wccn.WCCN.fit", build, spec, F, "C14.wccn.%s%s" % (kind, ".pinv" if pinv else ""), state_names={0: "self"}, structural=False)
+        cl = K.check_function(I, "wccn.WCCN.fit", build, spec, F, "C14.wccn.%s%s%s" % (kind, ".pinv" if pinv else "", ".intdata" if intdata else ""), state_names={0: "self"}, structural=False)
         out += cl
     res = []
     num = [c for c in out if ".numpy" in c.name]
